@@ -19,7 +19,7 @@ if hasattr(sys, "set_int_max_str_digits"):
     sys.set_int_max_str_digits(0)
 
 ID = "C15"
-COQ_TARGETS = ["Properties/C15.vo"]
+COQ_TARGETS = ["Properties/C15.vo", "GenFacts/DisplaySrcFacts.vo"]
 MODEL_TARGETS = ["Model/Display.vo"]
 IMPORTS = "From Ka Require Import Model.Display.\nOpen Scope string_scope.\n"
 # long literals are slow to parse in Coq (quadratic): big integers are given in 18-digit chunks, doubles as m * 2^e
